@@ -40,7 +40,7 @@ FORMATS = ["%Y-%m-%d", "%d.%m.%Y", "%Y-%m-%dT%H:%M:%S", "%Y-%m-%dT%H:%M:%S.%f", 
 INVERTIBLE = {"D": ["%Y-%m-%d", "%d.%m.%Y", "%G-W%V-%u"], "s": ["%Y-%m-%dT%H:%M:%S"], "us": ["%Y-%m-%dT%H:%M:%S.%f"], "ms": ["%Y-%m-%dT%H:%M:%S.%f"],
               "h": ["%Y-%m-%dT%H:%M:%S"], "m": ["%Y-%m-%dT%H:%M:%S"]}
 PATTERNS = [r"[a-z]", r"[a-z]+", r"\d+", r"x*", r"$", r"\b", r"(a)(b)?", r"(?P<w>\w+) (\w+)", r"^ab", r"a|b", r" +", r"[A-Z]", r"ö", r"(\d)(\d)", "ab", "a", " ", "x", "", "two"]
-STRINGS = ["asdf", "1234", "ab", "abab ab", "one two three", "four", "x", "xxx", "AbC", "a1b22", "ö ä", "two  spaces", "ab\ncd", " lead"]
+STRINGS = ["abc\x00", "abc\x00\x00", "asdf", "1234", "ab", "abab ab", "one two three", "four", "x", "xxx", "AbC", "a1b22", "ö ä", "two  spaces", "ab\ncd", " lead"]
 
 def _mk_dt(rng, unit):
     d = rng.choice(EDGE_DATES)
@@ -92,7 +92,7 @@ def generate(rng, tier):
         elif na == "some": vals = [None if rng.random() < 0.35 else v for v in vals]
     case["values"] = vals
     if form == "proxy" and rng.random() < 0.5:
-        case["derived"] = rng.choice(["copy", "view"])
+        case["derived"] = rng.choice(["copy", "view", "temp"])
     if n and rng.random() < 0.3:
         if fam == "regex":
             case["edit"] = (rng.randrange(n), rng.choice(STRINGS + [None]))
@@ -178,7 +178,8 @@ def _execute(case, edit):
                     else: got.append(f(pattern, v, flags=flags))
                 outlist = got
             else:
-                target = getattr(vec.re, fn) if form == "proxy" else getattr(di.regex, fn)
+                # "temp": the proxy is taken from a temporary vector (x[1:].re.sub(...), x.copy().dt.year()) that nothing else references
+                target = (getattr(vec[:].re, fn) if case.get("derived") == "temp" else getattr(vec.re, fn)) if form == "proxy" else getattr(di.regex, fn)
                 out = call(target)
                 outlist = list(np.asarray(out).tolist()) if fn != "sub" else [str(x) for x in np.asarray(out).tolist()]
                 if not isinstance(out, di.Vector) or len(outlist) != n:
@@ -227,6 +228,9 @@ def _execute(case, edit):
             pass
         np.asarray(vec)[pos % len(vals)] = np.datetime64("NaT" if newv is None else newv.isoformat(), unit)
     pre = canon.col_cells(vec)
+    def pv():
+        # the vector the proxy is taken from: the vector itself, or (derived == "temp") a fresh temporary view of it
+        return vec[:] if case.get("derived") == "temp" else vec
     def run(f_module, f_proxy, *args, **kw):
         """Call in the requested form; returns list of python results aligned with vals."""
         if form == "scalar":
@@ -238,7 +242,7 @@ def _execute(case, edit):
             ref = {"year": lambda v: v.year, "month": lambda v: v.month, "day": lambda v: v.day, "hour": lambda v: v.hour, "minute": lambda v: v.minute,
                    "second": lambda v: v.second, "microsecond": lambda v: v.microsecond, "weekday": lambda v: v.weekday(), "isoweekday": lambda v: v.isoweekday(),
                    "isoweek": lambda v: v.isocalendar()[1], "quarter": lambda v: (v.month - 1) // 3 + 1}[fn]
-            out, is_scalar = run(getattr(di.dt, fn), getattr(vec.dt, fn))
+            out, is_scalar = run(getattr(di.dt, fn), getattr(pv().dt, fn))
             got = [None if g is None else canon.canon_obj(g) for g in out] if is_scalar else canon.col_cells(out)
             exp = [canon.NA if v is None else ("N", ref(v)) for v in vals]
             if is_scalar: got = [canon.NA if g is None else g for g in got]
@@ -253,7 +257,7 @@ def _execute(case, edit):
                 out = [None if v is None else di.dt.replace(np.datetime64(v.isoformat(), unit), **{k: w for k, w in comps.items()}) for v in vals]
                 got = [canon.NA if g is None else canon.canon_obj(g) for g in out]
             else:
-                out = vec.dt.replace(**kw) if form == "proxy" else di.dt.replace(vec, **kw)
+                out = pv().dt.replace(**kw) if form == "proxy" else di.dt.replace(vec, **kw)
                 got = canon.col_cells(out)
             exp = []
             for i, v in enumerate(vals):
@@ -263,7 +267,7 @@ def _execute(case, edit):
                 res.violate("dt.replace:differs-from-datetime", f"{canon.first_diff(got, exp)}; {ctx}")
         elif fam == "to_string":
             fmt = case["format"]
-            out, is_scalar = run(di.dt.to_string, vec.dt.to_string, fmt)
+            out, is_scalar = run(di.dt.to_string, pv().dt.to_string, fmt)
             got = [canon.NA if g is None else canon.canon_obj(g, string_na=True) for g in out] if is_scalar else canon.col_cells(out)
             exp = [canon.NA if v is None else canon.canon_obj(v.strftime(fmt), string_na=True) for v in vals]
             if len(got) != n or got != exp:
